@@ -21,18 +21,20 @@ EXHAUSTIVE = True
 RULE = ('two streams. load: built-in plugins switched on/off by PLUGIN_<NAME> + 0-7 custom plugin names (module missing, class '
         'missing, name without a dot, constructor raising, switched off by config with many spellings — text, Python False, 0, '
         'the empty string, and DEEP_PLUGIN_<NAME> environment values incl. empty —, order() in '
-        '{None, 0, negative, positive, ties}) through the real load_plugins; expected list = the loadable ones stably sorted by '
+        '{None, 0, negative, positive, ties, floats incl. negative fractions and families that collide when truncated or '
+        'rounded, x.0 ties, 0.0/-0.0, bools, raising, text, list}) through the real load_plugins; expected list = the loadable ones stably sorted by '
         '(order() or 0). callbacks: a set of 6-9 custom plugins of every kind (2 resource providers, 2 decorators, 1-2 loggers, 2 '
         'metric processors, 2 span processors, plus usually one plugin switched off by configuration that must never be loaded '
         'nor called) loaded by a real Deep with a fake gRPC channel; 5 fault points (plugin, callback) '
         'are chosen and EVERY subset of them raises (Exception class, at every call) through Deep.start, a traced host program '
         'with snapshot+log, metric and span tracepoints, and Deep.shutdown; each run is compared with the fault-free run of the '
-        'same set. Non-trivial = a load case with at least one skipped and two loaded plugins, or a callback case with a non-empty '
+        'same set (the agent\'s logger is enabled at DEBUG into core.LOG_SINK, which formats every record: the log calls inside '
+        'the isolating except-handlers are agent code and their formatting must not raise). Non-trivial = a load case with at least one skipped and two loaded plugins, or a callback case with a non-empty '
         'fault subset.')
 TRUSTED = ['list.sort is a stable sort (CPython)', 'the fake channel stands for a healthy service']
 ASSUMPTIONS = ['plugin callback failures are Exception-class (a BaseException from a plugin is contained by trace_call, C01, but '
                'may cost the rest of that action)',
-               'order() returns an int or None and does not raise (a raising order() is outside the listed callbacks)']
+               'order() returns a finite number or None (inf / nan are not generated: nan has no position in any order)']
 
 BUILTIN = ['deep.api.plugin.otel.OTelPlugin', 'deep.api.plugin.python.PythonPlugin',
            'deep.api.plugin.metric.prometheus_metrics.PrometheusPlugin', 'deep.api.plugin.metric.otel_metrics.OTelMetrics']
@@ -120,10 +122,20 @@ def gen_load(rng):
         elif sw < 0.3:
             switch = rng.choice(ON)
         customs.append({'name': f'Q{i}', 'how': how, 'switch': switch,
-                        'order': rng.choice([None, 0, 0, 1, -1, 5, -7, 2, 2, 100, 'raise', 'text', 'list'])})
+                        'order': rng.choice(ORDERS)})
+    if rng.random() < 0.4:
+        # orders that differ by less than one (and collide when rounded or truncated), bools, 0.0/-0.0 (falsy), x.0 ties,
+        # configured in a random sequence: the DECLARED order decides, ties keep the configured sequence
+        fam = rng.choice(FRACTION_FAMILIES)
+        for c in customs:
+            c['order'] = rng.choice(fam)
     return {'kind': 'load', 'builtin_switch': [rng.choice([None, None, 'False', 'True', 'no', False, 0, '', 'env:', True]) for _ in BUILTIN],
             'customs': customs}
 
+
+ORDERS = [None, 0, 0, 1, -1, 5, -7, 2, 2, 100, 'raise', 'text', 'list', 1.5, 1.2, -0.5, 0.5, 2.0, True, False, 0.0, -1.5, 99.9]
+FRACTION_FAMILIES = [[1.5, 1.2, 1.7, 1, 1.0, True, 2], [-0.5, -0.25, 0, None, -0.75, 0.25, 0.0, -0.0, False],
+                     [0.5, 0.25, 0.75, 0, 1, True, False], [-1.5, -1.2, -1, -2, -1.0, -1.9], [2.5, 2.4, 2.6, 3, 2, 2.0, 3.0]]
 
 KIND_OF = {'r1': 'resource', 'r2': 'resource', 'd1': 'decorator', 'd2': 'decorator', 'lg1': 'logger', 'lg2': 'logger',
            'm1': 'metric', 'm2': 'metric', 's1': 'span', 's2': 'span'}
@@ -137,7 +149,7 @@ def gen_callbacks(rng, tier):
     if rng.random() < 0.5:
         plugins.append('lg2')
     rng.shuffle(plugins)
-    orders = {p: rng.choice([0, 0, 0, 1, -1, 3]) for p in plugins}
+    orders = {p: rng.choice([0, 0, 0, 1, -1, 3, 1.5, 1.2, -0.5, 0.5, 0.25]) for p in plugins}
     pts = rng.sample(POINTS, 5)
     subsets = []
     for r in range(len(pts) + 1):
@@ -198,6 +210,15 @@ def corpus():
                      {'name': 'Q3', 'how': 'ok', 'switch': 1, 'order': -4},
                      {'name': 'Q4', 'how': 'ok', 'switch': 2, 'order': 0},
                      {'name': 'Q5', 'how': 'ok', 'switch': None, 'order': 'list'}]},
+        # declared orders that collide when truncated or rounded, configured in the opposite sequence; bools; x.0 ties
+        {'kind': 'load', 'builtin_switch': [None, None, None, None],
+         'customs': [{'name': 'Q0', 'how': 'ok', 'switch': None, 'order': 1.5},
+                     {'name': 'Q1', 'how': 'ok', 'switch': None, 'order': 1.2},
+                     {'name': 'Q2', 'how': 'ok', 'switch': None, 'order': -0.5},
+                     {'name': 'Q3', 'how': 'ok', 'switch': None, 'order': True},
+                     {'name': 'Q4', 'how': 'ok', 'switch': None, 'order': 1.0},
+                     {'name': 'Q5', 'how': 'ok', 'switch': None, 'order': 0.0},
+                     {'name': 'Q6', 'how': 'ok', 'switch': None, 'order': 0.25}]},
         dict(cb([['d1', 'decorate']]), off={'name': 'x1', 'kind': 'decorator', 'switch': False, 'order': -5, 'at': 2}),
         dict(cb([]), off={'name': 'x1', 'kind': 'logger', 'switch': '', 'order': -5, 'at': 0}),
         cb([['m1', 'metric']]),                         # D21
@@ -207,6 +228,7 @@ def corpus():
         dict(cb([['r1', 'shutdown'], ['s1', 'shutdown']]), shutdown_cls='base'),
         dict(cb([['d1', 'shutdown']]), shutdown_cls='submit'),
         cb([['r1', 'resource'], ['d1', 'decorate'], ['lg1', 'log']]),
+        cb([['m1', 'metric'], ['s1', 'create_span'], ['s1', 'close'], ['r1', 'shutdown']]),
     ]
 
 
@@ -292,6 +314,15 @@ def load_specs(case):
 
 def usable(order):
     return order is None or (isinstance(order, (int, float)) and not isinstance(order, str))
+
+
+def model_order(o):
+    """as the Lean driver reads it: null (None) | a number (a bool is the int it equals) | "unusable" """
+    if not usable(o):
+        return 'unusable'
+    if isinstance(o, bool):
+        return int(o)
+    return o
 
 
 def model_switch(sw):
@@ -541,7 +572,7 @@ def model_request(case, obs):
         return None
     if case['kind'] == 'load':
         return {'op': 'load', 'specs': [{'id': s[1], 'import_ok': s[2], 'ctor_ok': s[3], 'switch': model_switch(s[6]),
-                                         'order': s[5] if usable(s[5]) else 'unusable'}
+                                         'order': model_order(s[5])}
                                         for s in load_specs(case)]}
     if 'raised' in obs['run'] or 'raised' in obs['ref']:
         return None
